@@ -24,6 +24,12 @@ type jsonStyle struct {
 	// scanner loses the sign for that spelling (known finding); most worlds spell it "-0.0".
 	NegZeroInt  bool
 	UsedNegZero bool
+	// ValueMapping: members of api.js_conv fields are spelled as the mapping accepts them (a string holding the number,
+	// or the bare number)
+	ValueMapping   bool
+	UsedJSConv     int
+	UsedJSConvI16  int // i16 members among them (known finding F43)
+	UsedJSConvNull int // null members of api.js_conv fields (known finding F44)
 	// Override renders the given model values with a fixed literal (kind-contradicting documents).
 	Override map[*TVal]string
 }
@@ -169,6 +175,35 @@ func (s *jsonStyle) floatText(f float64) string {
 	return out
 }
 
+// jsconv spells the member of an api.js_conv field under EnableValueMapping.
+func (s *jsonStyle) jsconv(sb *strings.Builder, v *TVal) {
+	s.UsedJSConv++
+	if v.T.Kind == tI16 {
+		s.UsedJSConvI16++
+	}
+	quoted := s.t.Chance(2, 3, "jsconv.quoted")
+	switch v.T.Kind {
+	case tBYTE, tI16, tI32, tI64:
+		if quoted {
+			sb.WriteString(`"` + strconv.FormatInt(v.I, 10) + `"`)
+		} else {
+			sb.WriteString(strconv.FormatInt(v.I, 10))
+		}
+	case tDOUBLE:
+		tx := v.NumText
+		if tx == "" {
+			tx = s.floatText(v.D)
+		}
+		if quoted {
+			sb.WriteString(`"` + tx + `"`)
+		} else {
+			sb.WriteString(tx)
+		}
+	default:
+		s.value(sb, v)
+	}
+}
+
 func (s *jsonStyle) value(sb *strings.Builder, v *TVal) {
 	if s.Override != nil {
 		if lit, ok := s.Override[v]; ok {
@@ -228,7 +263,12 @@ func (s *jsonStyle) value(sb *strings.Builder, v *TVal) {
 			sb.WriteByte(':')
 			s.ws(sb)
 			if fv.V == nil {
+				if s.ValueMapping && fv.F.JSConv {
+					s.UsedJSConvNull++
+				}
 				sb.WriteString("null")
+			} else if s.ValueMapping && fv.F.JSConv {
+				s.jsconv(sb, fv.V)
 			} else {
 				s.value(sb, fv.V)
 			}
